@@ -648,6 +648,15 @@ class _AliasSubst(ast.NodeTransformer):
 TUPLES_FILE = os.path.join(os.path.dirname(os.path.abspath(__file__)), 'known_tuple_assigns.txt')
 
 
+def _shape(st: ast.AST) -> str:
+    """the statement with every plain name written `_`: the key of the frozen list must survive a renaming of locals"""
+    c = copy.deepcopy(st)
+    for x in ast.walk(c):
+        if isinstance(x, ast.Name):
+            x.id = '_'
+    return ast.unparse(c)
+
+
 def tuple_assigns(model) -> list[str]:  # noqa: ANN001
     out = []
     for q, fi in model.funcs.items():
@@ -655,7 +664,7 @@ def tuple_assigns(model) -> list[str]:  # noqa: ANN001
             continue
         for st in _walk_own(fi.node):
             if isinstance(st, ast.Assign) and len(st.targets) == 1 and isinstance(st.targets[0], ast.Tuple) and isinstance(st.value, (ast.Tuple, ast.Attribute)):
-                out.append('%s\t%s' % (q.split('#')[0], ast.unparse(st)))
+                out.append('%s\t%s' % (q.split('#')[0], _shape(st)))
     return sorted(set(out))
 
 
@@ -686,7 +695,7 @@ def split_tuple_assigns(model) -> int:  # noqa: ANN001
             if isinstance(st, ast.Try):
                 for h in st.handlers:
                     h.body = split(h.body)
-            if isinstance(st, ast.Assign) and len(st.targets) == 1 and isinstance(st.targets[0], ast.Tuple) and isinstance(st.value, ast.Attribute) and _dotted_chain(st.value) and st.value.attr.isupper() and all(isinstance(x, ast.Name) for x in st.targets[0].elts) and '%s\t%s' % (current[0], ast.unparse(st)) not in known:
+            if isinstance(st, ast.Assign) and len(st.targets) == 1 and isinstance(st.targets[0], ast.Tuple) and isinstance(st.value, ast.Attribute) and _dotted_chain(st.value) and st.value.attr.isupper() and all(isinstance(x, ast.Name) for x in st.targets[0].elts) and '%s\t%s' % (current[0], _shape(st)) not in known:
                 # `code, subcode = self.OPEN_WAIT_EXPIRED`: the members of a named constant, one by one
                 for k_, t_ in enumerate(st.targets[0].elts):
                     a = ast.Assign(targets=[t_], value=ast.Subscript(value=copy.deepcopy(st.value), slice=ast.Constant(k_), ctx=ast.Load()), type_comment=None)
@@ -701,7 +710,7 @@ def split_tuple_assigns(model) -> int:  # noqa: ANN001
                 # calls on the right-hand side keep their order either way; a target that is itself read by an earlier
                 # value is fine (it is assigned after)
                 # as for helpers and constant locals, only what is not on the confirmed tree is rewritten
-                if safe and '%s\t%s' % (current[0], ast.unparse(st)) not in known:
+                if safe and '%s\t%s' % (current[0], _shape(st)) not in known:
                     for t_, v_ in zip(tgs, vals):
                         a = ast.Assign(targets=[t_], value=v_, type_comment=None)
                         ast.copy_location(a, st)
